@@ -42,9 +42,11 @@ type rsOp struct {
 }
 
 type rsCase struct {
-	Table tblCase    `json:"table"`
-	Tasks [][]rsOp   `json:"tasks"`
-	Knobs schedKnobs `json:"knobs"`
+	Table tblCase  `json:"table"`
+	Tasks [][]rsOp `json:"tasks"`
+	// open the shared table reader with EnableHashCheckOnReads (per-read checksum verification)
+	HashOnRead bool       `json:"hash_on_read,omitempty"`
+	Knobs      schedKnobs `json:"knobs"`
 }
 
 func rsGen(r *rand.Rand, mode string, thorough bool) rsCase {
@@ -55,7 +57,7 @@ func rsGen(r *rand.Rand, mode string, thorough bool) rsCase {
 	if mode == "mmap" {
 		tc.ValShape = 0
 	}
-	c := rsCase{Table: tc, Knobs: genKnobs(r)}
+	c := rsCase{Table: tc, Knobs: genKnobs(r), HashOnRead: r.Intn(3) == 0}
 	nt := 2 + r.Intn(5)
 	for t := 0; t < nt; t++ {
 		n := 3 + r.Intn(10)
@@ -136,7 +138,14 @@ func runRSCase(c *Ctx, rc rsCase, tape *simrt.Tape) (vs []rsV, evals int) {
 			err = mm.Open()
 		}
 	} else {
-		rd, err = sstables.NewSSTableReader(sstables.ReadBasePath(dir), sstables.ReadWithKeyComparator(skiplist.BytesComparator{}))
+		ropts := []sstables.ReadOption{sstables.ReadBasePath(dir), sstables.ReadWithKeyComparator(skiplist.BytesComparator{})}
+		if rc.HashOnRead {
+			ropts = append(ropts, sstables.EnableHashCheckOnReads())
+			if rc.Table.Seed%2 == 0 {
+				ropts = append(ropts, sstables.SkipHashCheckOnLoad())
+			}
+		}
+		rd, err = sstables.NewSSTableReader(ropts...)
 	}
 	if err != nil {
 		add("reader-open-error|"+normErr(err), err.Error())
